@@ -21,6 +21,9 @@ CLAIMED = {
  "C05": ("exploration", "4.2", "sender and receiver repositories on simfs, dulwich client and dulwich upload-pack/receive-pack server as actors joined by simnet (or LocalGitClient): random commit DAGs, receiver = closure of a random sub-history plus private commits, fetch/clone/push with random wants, capability sets, depth, delta packs; the scheduler owns delivery chunking/delay (hence can_read-driven negotiation), bounded buffers and resets; oracle = model closure byte-identical in the receiver, nothing outside the requested closure arrives, failure leaves refs/object set unchanged, retry without faults completes",
          "dulwich-to-dulwich only (C git and protocol v2 not inside the simulator); smart HTTP not simulated; schedules sampled",
          "deterministic simulation: two nodes + simulated byte-stream network under seeded schedules with fault injection (fragmentation, delay, back-pressure, reset), closure oracle against an object model"),
+ "C06": ("exploration", "4.3", "one server repository served by ReceivePackHandler actors, 1-2 pushers (dulwich send_pack over simnet, LocalGitClient, and a scripted raw pkt-line pusher independent of dulwich.protocol that sends stale old values, zero ids and new values absent from its pack) racing on the same refs under seeded syscall- and delivery-level schedules with optional resets; reported statuses must be explained by one CAS chain per ref ending in the server's final value, every server ref must name a present object, atomic pushes must be all-or-nothing",
+         "hooks not configured; smart HTTP not simulated; schedules sampled",
+         "deterministic simulation: server + racing pusher actors over simnet/simfs under seeded schedules with fault injection, history oracle (per-ref CAS chain reconstruction)"),
 }
 NA = {
  "C01": "pure function of object field values / setter order: no schedule, clock, fault or I/O seam for a simulator to own (DESIGN.md section 5)",
